@@ -3,31 +3,33 @@
 
    A history is what one writer does to its tracker: [OAdd p] (ImportTracker.AddType) and
    [ORender items] (one snippet: literal text and references, rendered through rawNamer.Name), in any
-   order and number, starting from the empty tracker.  [run fixed std self ops] is the model of the
-   code ([fixed = true]: with fixes/C03-1, C03-2 applied; [false]: before) executing the history for the
-   file of package [self] against the reserved-name table [std]; it yields the final tracker, the
-   text of every operation and the Imports() map after every operation.
+   order and number, starting from the empty tracker.  [run fixed pre std self ops] is the model of the
+   code ([fixed = true]: with fixes/C03-1, C03-2 applied; [false]: before;  [pre]: the names bind
+   refuses outright — go/types.Universe's names [universe_names] with fixes/C03-3 applied, [[]] before)
+   executing the history for the file of package [self] against the reserved-name table [std]; it
+   yields the final tracker, the text of every operation and the Imports() map after every operation.
 
-   Every theorem holds for EVERY reserved-name table (Some table, or None = no reservation), every
-   [self], every history.  Domain of the model: import paths are byte strings; it is the code's
+   Every theorem holds for EVERY refused-name list, EVERY reserved-name table (Some table, or None =
+   no reservation), every [self], every history.  Domain of the model: import paths are byte strings; it is the code's
    behaviour on ASCII paths (Go import paths are ASCII). *)
 Require Import Gengo.Base.Bytes Gengo.Model.GoIdent Gengo.Model.Tracker Gengo.Model.TrackerSpec
                Gengo.Model.CamelCase Gengo.Proofs.Tracker Gengo.Proofs.TrackerStd Gengo.Proofs.LocalName
                Gengo.Gen.StdList Gengo.Proofs.StdTable.
+Require Gengo.Spec.TypeLit.
 From Coq Require Import Permutation Sorted.
 
 (* The naming never panics and always terminates (the numbered fallback loop of the repaired
    [add] runs on fuel in the model; the fuel is never used up). *)
 Theorem C03_total :
-  forall std self fixed ops, exists tr texts snaps, run fixed std self ops = Ok (tr, texts, snaps).
+  forall pre std self fixed ops, exists tr texts snaps, run fixed pre std self ops = Ok (tr, texts, snaps).
 Proof. exact run_total. Qed.
 Print Assumptions C03_total.
 
 (* Bijection: pathToName and nameToPath are inverse to each other; hence no two packages share a
    local name, and the import table has no repeated path and no repeated name. *)
 Theorem C03_bijection :
-  forall std self fixed ops tr texts snaps,
-    run fixed std self ops = Ok (tr, texts, snaps) ->
+  forall pre std self fixed ops tr texts snaps,
+    run fixed pre std self ops = Ok (tr, texts, snaps) ->
     (forall p n, lookup p (p2n tr) = Some n <-> lookup n (n2p tr) = Some p) /\
     (forall p1 p2 n, lookup p1 (p2n tr) = Some n -> lookup p2 (p2n tr) = Some n -> p1 = p2) /\
     NoDup (keys (p2n tr)) /\ NoDup (vals (p2n tr)).
@@ -36,32 +38,32 @@ Print Assumptions C03_bijection.
 
 (* Stability: whatever happens later in the history, a package keeps the name it has. *)
 Theorem C03_stable :
-  forall std self fixed ops1 ops2 tr2 texts snaps,
-    run fixed std self (ops1 ++ ops2) = Ok (tr2, texts, snaps) ->
+  forall pre std self fixed ops1 ops2 tr2 texts snaps,
+    run fixed pre std self (ops1 ++ ops2) = Ok (tr2, texts, snaps) ->
     exists tr1 t1 s1 t2 s2,
-      run fixed std self ops1 = Ok (tr1, t1, s1) /\ texts = t1 ++ t2 /\ snaps = s1 ++ s2 /\
+      run fixed pre std self ops1 = Ok (tr1, t1, s1) /\ texts = t1 ++ t2 /\ snaps = s1 ++ s2 /\
       forall p n, lookup p (p2n tr1) = Some n -> lookup p (p2n tr2) = Some n.
 Proof. exact run_stable. Qed.
 Print Assumptions C03_stable.
 
 (* ... and every Imports() map observed during the history is contained in the final one. *)
 Theorem C03_snapshots_stable :
-  forall std self ops tr texts snaps,
-    run true std self ops = Ok (tr, texts, snaps) ->
+  forall pre std self ops tr texts snaps,
+    run true pre std self ops = Ok (tr, texts, snaps) ->
     Forall (fun s => forall p n, lookup p s = Some n -> lookup p (p2n tr) = Some n) snaps.
 Proof. exact run_snapshots. Qed.
 Print Assumptions C03_snapshots_stable.
 
 (* Adding the same package twice is adding it once (for any tracker state whatsoever). *)
 Theorem C03_add_idempotent :
-  forall std tr path tr', add true std tr path = Ok tr' -> add true std tr' path = Ok tr'.
+  forall pre std tr path tr', add true pre std tr path = Ok tr' -> add true pre std tr' path = Ok tr'.
 Proof. exact add_idempotent. Qed.
 Print Assumptions C03_add_idempotent.
 
 (* Std reservation: a local name that the table reserves is bound to its std package only. *)
 Theorem C03_std_reserved :
-  forall std self fixed ops tr texts snaps s,
-    std = Some s -> run fixed std self ops = Ok (tr, texts, snaps) ->
+  forall pre std self fixed ops tr texts snaps s,
+    std = Some s -> run fixed pre std self ops = Ok (tr, texts, snaps) ->
     forall p n sp, lookup p (p2n tr) = Some n -> lookup n (n2p s) = Some sp -> p = sp.
 Proof. exact run_std_reserved. Qed.
 Print Assumptions C03_std_reserved.
@@ -69,27 +71,49 @@ Print Assumptions C03_std_reserved.
 (* ... and conversely a std package is always imported under the name the table gives it, whatever
    else the history imports and in whatever order ([build_std] = std.go's init over any list). *)
 Theorem C03_std_packages_keep_their_names :
-  forall fixed lines s self ops tr texts snaps,
-    build_std fixed lines = Ok s ->
-    run fixed (Some s) self ops = Ok (tr, texts, snaps) ->
+  forall fixed pre lines s self ops tr texts snaps,
+    build_std fixed pre lines = Ok s ->
+    run fixed pre (Some s) self ops = Ok (tr, texts, snaps) ->
     forall p n sn, lookup p (p2n tr) = Some n -> lookup p (p2n s) = Some sn -> n = sn.
 Proof. exact std_packages_keep_their_names. Qed.
 Print Assumptions C03_std_packages_keep_their_names.
 
 (* Identifier validity (repaired code): every local name is a Go identifier, not a keyword, not "_". *)
 Theorem C03_valid_names :
-  forall std self ops tr texts snaps,
-    run true std self ops = Ok (tr, texts, snaps) ->
+  forall pre std self ops tr texts snaps,
+    run true pre std self ops = Ok (tr, texts, snaps) ->
     forall p n, lookup p (p2n tr) = Some n -> valid_name_b n = true.
 Proof. exact run_valid_names. Qed.
 Print Assumptions C03_valid_names.
+
+(* No shadowing of predeclared identifiers — the ADDITIONAL clause [no_predeclared] (valid_name_b is
+   unchanged: `string`, `len` ARE valid non-keyword identifiers): whatever list of names bind refuses
+   outright, no package is ever bound to one of them; for both code versions, every table, every
+   history (candidates and numbered fallback alike: float3 + "2" = float32 is refused too). *)
+Theorem C03_not_predeclared :
+  forall pre std self fixed ops tr texts snaps,
+    run fixed pre std self ops = Ok (tr, texts, snaps) ->
+    forall p n, lookup p (p2n tr) = Some n -> ~ In n pre.
+Proof. exact run_not_predeclared. Qed.
+Print Assumptions C03_not_predeclared.
+
+(* ... in particular for the repaired code of the current tree: no local name is an identifier of the
+   universe scope of the toolchain ([universe_names], Gen/StdList.v), nor one of the Go spec's
+   predeclared identifiers, nor a type name C11's name resolution treats as predeclared. *)
+Theorem C03_not_predeclared_universe :
+  forall std self ops tr texts snaps,
+    run true universe_names std self ops = Ok (tr, texts, snaps) ->
+    forall p n, lookup p (p2n tr) = Some n ->
+      not_predeclared_b universe_names n = true /\ ~ In n spec_predeclared /\ Spec.TypeLit.is_predeclared n = false.
+Proof. exact run_not_predeclared_universe. Qed.
+Print Assumptions C03_not_predeclared_universe.
 
 (* Exact import set (repaired code): a package is imported iff the history refers to it — it was
    AddType'd, or it is the package of a rendered reference or of one of its type arguments and is
    not the file's own package.  None missing, none unused. *)
 Theorem C03_exact_imports :
-  forall std self ops tr texts snaps,
-    run true std self ops = Ok (tr, texts, snaps) ->
+  forall pre std self ops tr texts snaps,
+    run true pre std self ops = Ok (tr, texts, snaps) ->
     forall p, In p (keys (p2n tr)) <-> In p (history_paths self ops).
 Proof. exact run_exact_imports. Qed.
 Print Assumptions C03_exact_imports.
@@ -98,8 +122,8 @@ Print Assumptions C03_exact_imports.
    table: each qualifier is the name its package is imported under (so asking twice gives the same
    name), and references to the own package carry no qualifier. *)
 Theorem C03_references_use_import_names :
-  forall std self ops tr texts snaps,
-    run true std self ops = Ok (tr, texts, snaps) ->
+  forall pre std self ops tr texts snaps,
+    run true pre std self ops = Ok (tr, texts, snaps) ->
     map (print_op self (p2n tr)) ops = map Some texts.
 Proof. exact run_texts. Qed.
 Print Assumptions C03_references_use_import_names.
@@ -128,44 +152,64 @@ Proof. exact raw_local_name_spec. Qed.
 Print Assumptions C03_local_name_is_lowercased_words.
 
 (* The reserved-name table of the current source (Gen/StdList.v, regenerated from std.list on every
-   run) is what the model builds, was not changed by the repairs, is a bijection onto valid names
-   and names every listed package. *)
+   run) is what the model builds, was not changed by the repairs (C03-1/2: [false]; C03-3: [[]]), is a
+   bijection onto valid names and names every listed package. *)
 Theorem C03_std_table :
-  std_built true = Ok std_tr /\ std_built false = Ok std_tr /\
+  std_built true universe_names = Ok std_tr /\ std_built false [] = Ok std_tr /\ std_built true [] = Ok std_tr /\
   (forall p n, lookup p (p2n std_tr) = Some n <-> lookup n (n2p std_tr) = Some p) /\
   (forall p n, lookup p (p2n std_tr) = Some n -> valid_name_b n = true) /\
   (forall l, In l std_lines -> l <> [] -> exists n, lookup l (p2n std_tr) = Some n).
-Proof. exact (conj std_table_built (conj std_table_unchanged_by_fix std_table_wf)). Qed.
+Proof. exact (conj std_table_built (conj std_table_unchanged_by_fix (conj std_table_unchanged_by_fix3 std_table_wf))). Qed.
 Print Assumptions C03_std_table.
+
+(* The universe scope of the current toolchain (Gen/StdList.v, regenerated from go/types.Universe on
+   every run) has every predeclared identifier of the Go spec and every predeclared type name of
+   C11's specification; its names are identifiers, pairwise distinct. *)
+Theorem C03_universe_table :
+  subset_b spec_predeclared universe_names = true /\
+  subset_b (map fst Spec.TypeLit.predeclared) universe_names = true /\
+  forallb valid_name_b universe_names && nodup_b universe_names = true.
+Proof. exact (conj universe_covers_spec (conj universe_covers_c11 universe_names_wf)). Qed.
+Print Assumptions C03_universe_table.
 
 (* History: the code before the repairs violated validity, exactness and the qualifier clause. *)
 Theorem C03_valid_names_refuted_before_fix :
   exists tr texts snaps,
-    run false None (bs "m") (h_refs [bs "github.com/json-iterator/go"]) = Ok (tr, texts, snaps) /\
+    run false [] None (bs "m") (h_refs [bs "github.com/json-iterator/go"]) = Ok (tr, texts, snaps) /\
     lookup (bs "github.com/json-iterator/go") (p2n tr) = Some (bs "go") /\ texts = [bs "go.T"].
 Proof. exact old_keyword_name. Qed.
 Print Assumptions C03_valid_names_refuted_before_fix.
 
 Theorem C03_valid_names_refuted_before_fix_digit :
   exists tr texts snaps,
-    run false None (bs "m") (h_refs [bs "example.com/2fa"]) = Ok (tr, texts, snaps) /\
+    run false [] None (bs "m") (h_refs [bs "example.com/2fa"]) = Ok (tr, texts, snaps) /\
     lookup (bs "example.com/2fa") (p2n tr) = Some (bs "2fa").
 Proof. exact old_digit_name. Qed.
 Print Assumptions C03_valid_names_refuted_before_fix_digit.
 
+(* before fixes/C03-3 (C03-1 and C03-2 in): example.com/x/string was imported as `string` *)
+Theorem C03_not_predeclared_refuted_before_fix :
+  (exists tr texts snaps,
+    run true [] None (bs "m") (h_refs [bs "example.com/x/string"]) = Ok (tr, texts, snaps) /\
+    lookup (bs "example.com/x/string") (p2n tr) = Some (bs "string") /\ texts = [bs "string.T"])
+  /\ In (bs "string") universe_names /\ valid_name_b (bs "string") = true.
+Proof. exact old_predeclared_name_universe. Qed.
+Print Assumptions C03_not_predeclared_refuted_before_fix.
+
 Theorem C03_exact_imports_refuted_before_fix :
   exists tr texts snaps,
-    run false None (bs "m") (h_refs [bs "a.com/foo-bar"; bs "a.com/foo_bar"; bs "a.com/foobar"]) = Ok (tr, texts, snaps) /\
+    run false [] None (bs "m") (h_refs [bs "a.com/foo-bar"; bs "a.com/foo_bar"; bs "a.com/foobar"]) = Ok (tr, texts, snaps) /\
     lookup (bs "a.com/foobar") (p2n tr) = None /\ nth 2 texts [] = bs ".T".
 Proof. exact old_candidates_exhausted. Qed.
 Print Assumptions C03_exact_imports_refuted_before_fix.
 
 (* non-vacuity: a history with a std clash, a keyword segment, exhausted candidates, a generic
-   instantiation with an own-package argument and a repeated package, under the current std table *)
+   instantiation with an own-package argument and a repeated package, under the current std table
+   and universe *)
 Local Open Scope string_scope.
 Example C03_example :
   let r p n args := IRef (mk_ref (bs p) (bs n) args []) in
-  match run true (Some std_tr) (bs "example.com/m")
+  match run true universe_names (Some std_tr) (bs "example.com/m")
           [ORender [r "math/rand" "Rand" []]; ORender [r "example.com/rand" "T" []];
            ORender [r "github.com/json-iterator/go" "API" []];
            OAdd (bs "a.com/foo-bar"); OAdd (bs "a.com/foo_bar"); OAdd (bs "a.com/foobar");
@@ -177,4 +221,18 @@ Example C03_example :
   ([("example.com/o", "o"); ("a.com/foobar", "acomfoobar2"); ("a.com/foo_bar", "acomfoobar"); ("a.com/foo-bar", "foobar");
     ("github.com/json-iterator/go", "_go"); ("example.com/rand", "examplecomrand"); ("math/rand", "mathrand")],
    ["mathrand.Rand"; "examplecomrand.T"; "_go.API"; ""; ""; ""; "[]o.List[acomfoobar2.Item,Own,int]"; "Own mathrand.Source"]).
+Proof. vm_compute. reflexivity. Qed.
+
+(* predeclared names: first candidate refused (x/string -> xstring), single segment numbered
+   (error -> error2), the numbered fallback itself refused (float3, float-3 -> float33) *)
+Example C03_example_predeclared :
+  match run true universe_names (Some std_tr) (bs "example.com/m")
+          [OAdd (bs "example.com/x/string"); OAdd (bs "error"); OAdd (bs "float3"); OAdd (bs "float-3");
+           ORender [IRef (mk_ref (bs "a.com/len") (bs "T") [(bs "a.com/nil", bs "V]")] [])]] with
+  | Ok (tr, texts, _) => (map (fun e => (to_string (fst e), to_string (snd e))) (p2n tr), map to_string texts)
+  | _ => ([], [])
+  end =
+  ([("a.com/len", "acomlen"); ("a.com/nil", "acomnil"); ("float-3", "float33"); ("float3", "float3"); ("error", "error2");
+    ("example.com/x/string", "xstring")],
+   [""; ""; ""; ""; "acomlen.T[acomnil.V]"]).
 Proof. vm_compute. reflexivity. Qed.
